@@ -753,7 +753,7 @@ def _apply_coarse(line, flags):
     return " | ".join(parts)
 
 
-def _search_variants(shape):
+def _search_variants(shape, names=()):
     """search mode: shapes on which model and code disagreed, with exposure turned up (every class exposed; every
     function with a public __name__ exposed) so that a gate that lets too much through shows it on the real code"""
     a = copy.deepcopy(shape)
@@ -773,7 +773,28 @@ def _search_variants(shape):
                 f["expose"] = False
             if m["k"] == "prop":
                 m["expose"] = False
-    return [a, b, c]
+    out = [a, b, c]
+    # the names model and code disagreed about, stored as exposed members (function with a public __name__, property)
+    extra = [n for n in names if isinstance(n, str) and n and n not in _shape_keys(shape)]
+    if extra:
+        d = copy.deepcopy(shape)
+        if not d["classes"]:
+            d["classes"].append({"expose": False, "members": []})
+        fid = 900
+        for i, n in enumerate(extra[:4]):
+            fid += 2
+            if i % 2 == 0:
+                m = {"k": "func", "f": {"name": "pub", "fid": fid, "expose": True, "oneway": False}}
+            else:
+                m = {"k": "prop", "expose": True, "g": {"name": "pub", "fid": fid, "expose": False, "oneway": False},
+                     "s": {"name": "pub", "fid": fid + 1, "expose": False, "oneway": False}, "d": None}
+            d["classes"][0]["members"].append([n, m])
+        out.append(d)
+        e = copy.deepcopy(d)
+        for cl in e["classes"]:
+            cl["expose"] = True
+        out.append(e)
+    return out
 
 
 def _run(ctx, name, nshapes, do_model, extra_shapes=()):
@@ -836,12 +857,14 @@ def oracle(ctx):
     if ctx.search_mode:
         seeds, seen = [], set()
         for m in ctx.mismatches[:60]:
-            sh = (m.get("case") or {}).get("shape")
-            key = json.dumps(sh, sort_keys=True)
+            case = m.get("case") or {}
+            sh = case.get("shape")
+            names = req_names(case["req"]) if case.get("req") else []
+            key = json.dumps([sh, names], sort_keys=True)
             if sh and key not in seen:
                 seen.add(key)
-                seeds += _search_variants(sh)
-        _run(ctx, "search", ctx.n(100, 1000), False, extra_shapes=seeds[:90])
+                seeds += _search_variants(sh, names)
+        _run(ctx, "search", ctx.n(100, 1000), False, extra_shapes=seeds[:120])
 
 
 def replay(ctx, case):
